@@ -168,13 +168,73 @@ theorem hashFromArray_no_fault (vs : List Val) : hashFromArray vs ≠ .fault := 
   · split <;> simp
   · split <;> simp
 
+/-! the tree walk: every entry the dispatch lets through is a `[path-array, value]` pair, so no assertion fails -/
+
+def treePair (e : Val) : Prop := ∃ p x, e = .arr [.arr p, x]
+
+theorem treePair_of_inst (e : Val) (h : inst (.tuple [.arr .any 0 none, .any]) e = true) : treePair e := by
+  cases e <;> simp [inst] at h
+  rename_i vs
+  match vs, h with
+  | [a, b], h =>
+    simp [instZip, inst] at h
+    cases a <;> simp at h
+    exact ⟨_, _, rfl⟩
+  | [], h => simp [instZip] at h
+  | [_], h => simp [instZip] at h
+  | _ :: _ :: _ :: _, h => simp [instZip] at h
+
+theorem treeEntry_no_fault (allHashes : Bool) (root : List (Val × Node)) (e : Val) (h : treePair e) :
+    treeEntry allHashes root e ≠ .fault := by
+  obtain ⟨p, x, rfl⟩ := h
+  simp only [treeEntry]
+  split
+  · simp
+  · split
+    · split
+      · simp
+      · split <;> simp
+      · simp
+    · simp
+
+theorem treeLoop_no_fault (allHashes : Bool) (es : List Val) (h : ∀ e ∈ es, treePair e) (root : List (Val × Node)) :
+    treeLoop allHashes root es ≠ .fault := by
+  induction es generalizing root with
+  | nil => simp [treeLoop]
+  | cons e es ih =>
+    simp only [treeLoop]
+    have h1 := treeEntry_no_fault allHashes root e (h e (by simp))
+    cases hs : treeEntry allHashes root e with
+    | ok root' => exact ih (fun e' he' => h e' (by simp [he'])) root'
+    | unmodelled => simp
+    | fault => exact absurd hs h1
+
 theorem hash_no_fault (args : List Val) : ctorCall hashCtor args ≠ .fault := by
   rcases ctorCall_cases hashCtor args ⟨_, rfl⟩ with h | ⟨i, cr, hcr, hacc, hcall⟩
   · rw [h]; simp
   · rw [hcall]
     obtain ⟨⟨hreq, _, hargs⟩, _⟩ := hacc
     match i, hcr with
-    | 0, _ => simp [hashCtor]
+    | 0, hcr =>
+      simp [hashCtor] at hcr; subst hcr
+      simp only [paramsOf, List.filterMap, BOp.param?] at hreq hargs
+      have h0 := hreq 0 (.req, treeArray) (by simp) rfl
+      match args, h0 with
+      | a0 :: rest, _ =>
+        obtain ⟨p0, hp0, hi0⟩ := hargs 0 a0 (by simp)
+        simp at hp0; subst hp0
+        cases a0 with
+        | arr vs =>
+          simp [treeArray, inst] at hi0
+          match rest with
+          | [] => simpa [hashCtor] using hashFromArray_no_fault vs
+          | a1 :: more =>
+            obtain ⟨p1, hp1, hi1⟩ := hargs 1 a1 (by simp)
+            simp at hp1; subst hp1
+            cases a1 <;> simp [inst] at hi1
+            simp only [hashCtor, treeBody]
+            exact treeLoop_no_fault _ vs (fun e he => treePair_of_inst e (hi0.2 e he)) []
+        | _ => simp [treeArray, inst] at hi0
     | 1, hcr =>
       simp [hashCtor] at hcr; subst hcr
       simp only [paramsOf, List.filterMap, BOp.param?] at hreq hargs
